@@ -127,6 +127,13 @@ class OpHistory(Harness):
                     out.append({"ops": [side, side, ["C", ci], "T", "T", side, "T", "T"], "ttl": "sym"})
                     out.append({"ops": [side, side, "T", ["C", ci], "T", side, "T", "T", "T"], "ttl": "sym"})
                 out.append({"ops": [side, side, other, "T", "T", side, "T", "T", other], "ttl": "sym"})
+        # a trade at a new price after a clock step, then the switch to not running and one more book event in
+        # the same step (what a trading halt fired by a fill does)
+        if "C08" in self.props:
+            for a, b in (("BL", "SM"), ("SL", "BM"), ("BL", "SL"), ("SL", "BL")):
+                for last in (a, b, ["C", 0]):
+                    out.append({"ops": [a, "T", b, "X", last], "ttl": "none"})
+                    out.append({"ops": [a, "T", a, b, "X", last], "ttl": "none"})
         for first in ("SL", "SM"):
             for n in range(1, min(N, 2) + 1):
                 for ops in self._gen(n, 1):
